@@ -19,12 +19,12 @@ theorem new_ok (A : View α) (N : Nat) (hN : 0 < N) : new A N = .ok (s0 A N) := 
 
 @[simp] def abs (A : View α) (s : State α A.σ) : A.σ × WelfordState α := (s.view, { q := s.q_vals, mean := s.mean, m2 := s.m2, count := s.count })
 
-theorem upd_eq (A : View α)  (s : State α A.σ) (x : α) (htot : ∀ a b : α, ¬ a ≤ b → b ≤ a) (hrefl : ∀ a : α, a ≤ a) :
+theorem upd_eq (A : View α)  (s : State α A.σ) (x : α) (htot : ∀ a b : α, ¬ a ≤ b → b ≤ a) (hrefl : ∀ a : α, a ≤ a)  :
     (update A s x).map (abs A) = (wrap A (welfordCoreU s.window_len)).upd (abs A s) x := by
   simp only [update, wrap, mapV, binop, welfordCoreU, welfordStep, welfordOut, welfordInit, WelfordState.add, WelfordState.remove, WelfordState.variance, update_stats_add, update_stats_remove, variance, abs]; gen_tie
-theorem upd_cfg (A : View α) (s s' : State α A.σ) (x : α) : update A s x = .ok s' → s'.window_len = s.window_len := by
+theorem upd_cfg (A : View α) (s s' : State α A.σ) (x : α)  : update A s x = .ok s' → s'.window_len = s.window_len := by
   simp only [update, welfordCoreU, welfordStep, welfordOut, welfordInit, WelfordState.add, WelfordState.remove, WelfordState.variance, update_stats_add, update_stats_remove, variance]; gen_tie
-theorem last_eq (A : View α)  (s : State α A.σ) (htot : ∀ a b : α, ¬ a ≤ b → b ≤ a) (hrefl : ∀ a : α, a ≤ a) : last A s = (wrap A (welfordCoreU s.window_len)).last (abs A s) := by
+theorem last_eq (A : View α)  (s : State α A.σ) (htot : ∀ a b : α, ¬ a ≤ b → b ≤ a) (hrefl : ∀ a : α, a ≤ a)  : last A s = (wrap A (welfordCoreU s.window_len)).last (abs A s) := by
   simp only [last, wrap, mapV, binop, welfordCoreU, welfordStep, welfordOut, welfordInit, WelfordState.add, WelfordState.remove, WelfordState.variance, update_stats_add, update_stats_remove, variance, abs]; gen_tie
 
 def sim (A : View α) (N : Nat) (htot : ∀ a b : α, ¬ a ≤ b → b ≤ a) (hrefl : ∀ a : α, a ≤ a) : Sim (mkView (s0 A N) (update A) (last A)) (wrap A (welfordCoreU N)) where
@@ -34,15 +34,15 @@ def sim (A : View α) (N : Nat) (htot : ∀ a b : α, ¬ a ≤ b → b ≤ a) (h
   init_abs := by rfl
   upd := fun (s : State α A.σ) x hs => by
     have h0 : s.window_len = N := hs
-    have := upd_eq A s x htot hrefl 
+    have := upd_eq A s x htot hrefl  
     (try rw [h0] at this); exact this
   upd_cfg := fun (s : State α A.σ) x s' hs h => by
     have h0 : s.window_len = N := hs
-    have := upd_cfg A s s' x h
+    have := upd_cfg A s s' x  h
     simp_all
   last := fun (s : State α A.σ) hs => by
     have h0 : s.window_len = N := hs
-    have := last_eq A s htot hrefl 
+    have := last_eq A s htot hrefl  
     (try rw [h0] at this); exact this
 
 /-- the Rust text of `WelfordOnline`, as translated, and the model agree on every input: same answers, same panics -/
